@@ -8,7 +8,7 @@ def run(tier):
     c.mc("ImageCodec", "MC_ImageCodec", "MC_ImageCodec.cfg", workers=4, timeout=900)
     nsh = 12 if tier == "quick" else 16
     traces = []
-    for k, sd in enumerate(vlib.seeds(tier, 6)):
+    for k, sd in enumerate(vlib.seeds(tier, 20)):
         traces += c.drive(exe, [["@OUT", tier, sd, i, nsh] for i in range(nsh)], tag="img%d" % k)
     bads = c.validate("ImageCodec", "Trace_ImageCodec", traces, timeout=3400, xmx="6g")
     c.judge(bads)
